@@ -1,4 +1,5 @@
 import SigpyVerif.Model.C01
+import SigpyVerif.Model.C04
 import SigpyVerif.Lemmas.Py
 import Mathlib.Tactic.Ring
 import Mathlib.Tactic.Linarith
@@ -15,10 +16,7 @@ import Mathlib.Algebra.Order.Ring.Rat
 namespace SigpyVerif.C04
 open SigpyVerif SigpyVerif.C01
 
-/-- number of (block n, offset x) pairs of the 1-D block layout (block length B, stride S, N blocks)
-    that land on array index i -/
-def coverPairs (B S N i : Int) : Nat :=
-  ((pyRange0 N).flatMap fun n => (pyRange0 B).filter fun x => decide (n * S + x = i)).length
+/- `coverPairs B S N i` (Model/C04.lean): number of (block n, offset x) pairs landing on array index i -/
 
 /-- the same count, written the way the scatter loop of `_blocks_to_array1` enumerates it -/
 def coverScatter (B S N i : Int) : Nat :=
